@@ -361,6 +361,102 @@ func runC04Huge(run *ev.Run, cs c04Case) {
 	run.Distinct(string(b))
 }
 
+// runC04Dual: a second attack is started on the same Attacker while the first is running. Each
+// attack's pacer must keep seeing an elapsed time measured from that attack's own start:
+// non-decreasing, not larger than the time since just before its Attack call, not smaller than the
+// time since just after it (minus nothing: the previous call's return plus its wait lies in between).
+func runC04Dual(run *ev.Run, cs c04Case) {
+	base := time.Now()
+	type one struct {
+		name      string
+		p         *recPacer
+		pre, post time.Duration
+		done      chan struct{}
+		n         int
+	}
+	mk := func(name string, stopAt int) *one {
+		o := &one{name: name, p: &recPacer{base: base}, done: make(chan struct{})}
+		o.p.decide = func(i int, _ time.Duration, _ uint64) (time.Duration, bool) { return cs.WaitNs, i >= stopAt }
+		return o
+	}
+	a, b := mk("first", cs.StopAt), mk("second", cs.StopAt/2+1)
+	rt := &recTransport{base: base}
+	atk := vegeta.NewAttacker(vegeta.Client(&http.Client{Transport: rt}), vegeta.Workers(cs.Workers), vegeta.MaxWorkers(cs.Max))
+	start := func(o *one) {
+		tg := &recTargeter{targets: defaultTargets()}
+		o.pre = time.Since(base)
+		res := atk.Attack(tg.Targeter(), o.p, cs.Duration, "c04-"+o.name)
+		o.post = time.Since(base)
+		go func() {
+			defer close(o.done)
+			for range res {
+				o.n++
+			}
+		}()
+	}
+	all := make(chan struct{})
+	go func() {
+		defer close(all)
+		start(a)
+		for lim := time.Now().Add(10 * time.Second); a.p.released.Load() < int64(cs.ExtStop) && time.Now().Before(lim); {
+			time.Sleep(50 * time.Microsecond)
+		}
+		start(b)
+		<-a.done
+		<-b.done
+	}()
+	switch st, dump := awaitEnd(all, 120*time.Second); st {
+	case endDeadlock:
+		run.Inconclusive("C04 two attacks on one Attacker deadlocked (C02's verdict, not this property's): " + tail(dump, 300))
+		return
+	case endWatchdog:
+		run.Inconclusive("C04 two attacks on one Attacker did not end before the 120s watchdog")
+		return
+	}
+	run.Eval(1)
+	run.Count("attacks", 2)
+	run.Count("attackers_running_two_attacks_at_once", 1)
+	overlapped := false
+	for _, o := range []*one{a, b} {
+		recs := o.p.recs
+		run.Count("pace_calls", int64(len(recs)))
+		viol := func(clause, note string, i int) {
+			lo, hi := max(0, i-2), min(len(recs), i+2)
+			run.Violate("C04/"+clause+"/two-attacks-one-attacker", fmt.Sprintf("%+v, %s attack (Attack called at %v, returned at %v): %s", cs, o.name, o.pre, o.post, note),
+				c04Witness{Case: cs, Clause: clause, Note: o.name + " attack: " + note, Pace: recs[lo:hi]})
+		}
+		for i, r := range recs {
+			if o == a && r.TCall > b.post {
+				overlapped = true
+			}
+			if r.Hits != uint64(i) {
+				viol("pace-hits-arg", fmt.Sprintf("Pace call #%d was told hits=%d", i, r.Hits), i)
+				break
+			}
+			if i > 0 && r.Elapsed < recs[i-1].Elapsed {
+				viol("elapsed-decreases", fmt.Sprintf("Pace call #%d elapsed=%v after %v", i, r.Elapsed, recs[i-1].Elapsed), i)
+				break
+			}
+			if r.Elapsed > r.TCall-o.pre {
+				viol("elapsed-too-large", fmt.Sprintf("Pace call #%d elapsed=%v but only %v passed since before this Attack call", i, r.Elapsed, r.TCall-o.pre), i)
+				break
+			}
+			if i > 0 {
+				if lower := recs[i-1].TReturn + max(recs[i-1].Wait, 0) - o.post; r.Elapsed < lower {
+					viol("elapsed-too-small", fmt.Sprintf("Pace call #%d elapsed=%v but at least %v passed since this attack started", i, r.Elapsed, lower), i)
+					break
+				}
+			}
+		}
+	}
+	if overlapped {
+		run.Count("first_attack_paced_while_second_running", 1)
+		run.Class("two-attacks/overlapping")
+		b, _ := json.Marshal(cs)
+		run.Distinct("dual:" + string(b))
+	}
+}
+
 func runC04(c *Ctx) int {
 	if c.Child != nil {
 		run := ev.NewChildRun("C04", c.Tier)
@@ -372,6 +468,13 @@ func runC04(c *Ctx) int {
 			b, _ := json.Marshal(cs)
 			logCase(string(b))
 			runC04Case(run, cs)
+		}
+		for i := 0; i < 2; i++ {
+			cs := c04Case{Pacer: "dual", WaitNs: time.Duration(100+rng.Intn(400)) * time.Microsecond, StopAt: 80 + rng.Intn(80), ExtStop: 10 + rng.Intn(20),
+				Workers: []uint64{1, 2, 8}[rng.Intn(3)], Max: 8, Seed: rng.Int63()}
+			b, _ := json.Marshal(cs)
+			logCase(string(b))
+			runC04Dual(run, cs)
 		}
 		for i := 0; i < 2; i++ {
 			w := []time.Duration{math.MaxInt64, math.MaxInt64 - time.Duration(rng.Int63n(1_000_000)), math.MaxInt64 - time.Duration(rng.Int63n(int64(time.Hour)))}[rng.Intn(3)]
@@ -402,6 +505,10 @@ func runC04(c *Ctx) int {
 			return ev.ExitBroken
 		}
 		for i := 0; i < 20; i++ {
+			if v.Detail.Case.Pacer == "dual" {
+				runC04Dual(run, v.Detail.Case)
+				continue
+			}
 			if v.Detail.Case.Pacer == "huge" {
 				runC04Huge(run, v.Detail.Case)
 				break
@@ -423,6 +530,7 @@ func runC04(c *Ctx) int {
 	}
 	run.Floor("attacks", int64(shards*per*9/10))
 	run.Floor("attacks_whose_pacer_asks_for_a_wait_of_centuries", int64(shards))
+	run.Floor("first_attack_paced_while_second_running", int64(shards))
 	run.Floor("pace_calls", 3000)
 	run.Floor("transport_entries", 3000)
 	run.FloorDistinct(shards * per / 2)
